@@ -1,6 +1,9 @@
 package codecs
 
 import (
+	"fmt"
+	"io"
+
 	"github.com/datastax/go-cassandra-native-protocol/compression/lz4"
 	"github.com/datastax/go-cassandra-native-protocol/compression/snappy"
 	"github.com/datastax/go-cassandra-native-protocol/frame"
@@ -27,3 +30,25 @@ var (
 
 	CompressionNames = []string{"lz4", "snappy"}
 )
+
+// ConvertFromRawFrame decodes a raw frame received from a peer. The message codecs of the protocol library panic on
+// some malformed bodies (e.g. a negative row or column count in a result), that must not bring down the proxy: the
+// panic is returned as a decoding error.
+func ConvertFromRawFrame(codec frame.RawCodec, raw *frame.RawFrame) (frm *frame.Frame, err error) {
+	defer func() {
+		if r := recover(); r != nil {
+			frm, err = nil, fmt.Errorf("unable to decode frame body: %v", r)
+		}
+	}()
+	return codec.ConvertFromRawFrame(raw)
+}
+
+// DecodeBody decodes the body of a frame received from a peer, see ConvertFromRawFrame.
+func DecodeBody(codec frame.RawCodec, header *frame.Header, source io.Reader) (body *frame.Body, err error) {
+	defer func() {
+		if r := recover(); r != nil {
+			body, err = nil, fmt.Errorf("unable to decode frame body: %v", r)
+		}
+	}()
+	return codec.DecodeBody(header, source)
+}
